@@ -124,12 +124,17 @@ def scopesIn (c : Cfg) (mods : Ids) (inDef useLoc emitTop : Bool) (fr : Frame) (
         let useCD := !inDef && (!bid.locAssigned.isEmpty || !bid.argDecl.isEmpty)
         -- `fr`'s own `_Identifiers` is the top of the identifier stack while its nodes are traversed
         let ownUse := !inDef && (!fr.ids.locAssigned.isEmpty || !fr.ids.argDecl.isEmpty)
-        let ccD : Frame := { ccall := true, defs := callDefNames b }
+        -- `callable_identifiers.declared.discard("caller")` (regenerated flag): the defs of the call look `caller` up
+        -- in the context, whatever the enclosing scopes know under that name
+        let calD : Ids := if Generated.Names.callDefsDropCaller then
+            { cal with declared := cal.declared.filter (fun x => decide (x ≠ callerName)) } else cal
+        let ccD : Frame := { ccall := true, defs := callDefNames b,
+                             blocks := if Generated.Names.callDefsDropCaller then [callerName] else [] }
         let ccB : Frame := { ccall := true, params := [callerName], defs := callDefNames b }
         let frB : Frame := { ids := bid, params := args, own := ownOf b, defs := (closOf false b).filter (fun f => decide (f ∉ callDefNames b)),
                               useLocals := ownUse }
         let pB := path ++ [PathEl.ccall t, PathEl.body]
-        callDefsIn c mods inDef useCD cal ccD (fr :: rest) (path ++ [PathEl.ccall t]) b
+        callDefsIn c mods inDef useCD calD ccD (fr :: rest) (path ++ [PathEl.ccall t]) b
         ++ [{ path := pB, kind := .callBody, tag := t, inDef, toplevel := false,
               frames := frB :: ccB :: fr :: rest, body := b, extraIds := [cal],
               binds := declsThrough b ++ d ++ closOf false b }]
